@@ -1356,7 +1356,7 @@ pub struct AddressAssignment {
 
 lazy_static! {
     static ref DIRECT_ADDRESS_UNASSIGNED: Regex = Regex::new(r"%([IQM])\*").unwrap();
-    static ref DIRECT_ADDRESS: Regex = Regex::new(r"%([IQM])([XBWDL])?(\d(\.\d)*)").unwrap();
+    static ref DIRECT_ADDRESS: Regex = Regex::new(r"%([IQM])([XBWDL])?(\d+(\.\d+)*)").unwrap();
 }
 
 impl TryFrom<&str> for AddressAssignment {
@@ -1379,10 +1379,11 @@ impl TryFrom<&str> for AddressAssignment {
                 Some(size) => SizePrefix::try_from(size.as_str())?,
                 None => SizePrefix::Nil,
             };
-            let pos: Vec<u32> = cap[3]
+            let pos = cap[3]
                 .split('.')
-                .map(|v| v.parse::<u32>().unwrap())
-                .collect();
+                .map(|v| v.parse::<u32>())
+                .collect::<Result<Vec<u32>, _>>()
+                .map_err(|e| "Address component out of range")?;
 
             return Ok(AddressAssignment {
                 location: location_prefix,
